@@ -251,7 +251,7 @@ example : (runFinal Ex.cfg (initSt 1) (List.replicate 30 Ex.silent)).nb = 1200 â
     (`Regular c`: `max_data_bytes â‰¥ 3`, `bitrate â‰¥ 3Â·8Â·frame_rate`, and for packets longer than 20 ms
     at least 300 bytes/s and 2400 bit/s, src/opus_encoder.c:1267), from any state and for all oracle
     values, UNDER THE INNER-ENCODER CONTRACT `NoBust` ("the SILK payload fits the frame budget": the
-    branch `ec_tell(&enc) > (max_data_bytes-1)*8` of :2443-2452 is not taken in any coded frame),
+    branch `ec_tell(&enc) > (max_data_bytes-1)*8` of :2448-2457 is not taken in any coded frame),
     every call goes through the frame loop, none of its coded frames takes a DTX return and the packet is
     the inner encoders' coded audio.  The contract is an explicit hypothesis, not a theorem: the real
     SILK encoder does overrun tight budgets (known finding C20-silk-bust-2byte: 60 ms stereo, FEC on,
